@@ -125,7 +125,7 @@ func (ex *Exec) cutLoop(li *loopInfo, st *State) {
 	}
 	// automatic loop frame: what the function's `modifies` does not allow stays as at function entry
 	li.frameHeaps = nil
-	if ex.con != nil && !ex.con.modifiesAll() && !ex.con.NoFrame && !ms.all {
+	if ex.con != nil && !ex.con.modifiesAll() && !ex.con.NoFrame && !ex.con.AssumedFrame && !ms.all {
 		for _, h := range hs {
 			srt := ex.heapR.sorts[h]
 			if !strings.HasPrefix(srt, "(Array Int ") {
